@@ -59,6 +59,10 @@ THEOREMS = [
     "Verif.C11.driving_peak_gaussian_recovery",
     "Verif.C11.driving_peak_window_constants",
     "Verif.C11.driving_peak_answer_sound",
+    "Verif.C11.driving_peak_bin_is_argmax",
+    "Verif.C11.driving_estimator_decomposes",
+    "Verif.C11.fit_validation_iff",
+    "Verif.C11.fit_validation_errors",
 ]
 RULE = (
     "corpus (8 representative + the open finding F-C11-1) + exhaustive option matrix (hydro x axial x distance{None, at the "
@@ -91,7 +95,8 @@ RULE = (
     "log-parabola, both RuntimeError branches, IndexError for an empty search range, vertex, amplitude, amp_std) and "
     "compares (frequency, amplitude, amp_std) or the error; a deterministic small scope (3 frequencies x 6 guess offsets "
     "incl. peak outside the search range and search range beyond Nyquist x {no, stronger, weaker} second tone inside the "
-    "range) exercises the peak search."
+    "range) exercises the peak search; the raise statements of lk.fit_power_spectrum are run over npts {3,4,5,12} x loss "
+    "{gaussian, lorentzian, unknown} x bias correction x {non-empty, empty} analytical range (op c11.fitvalidate)."
 )
 TRUSTED = [
     "RealLike formulas are proved over the reals and executed at Float: rounding is not modelled, the comparison "
@@ -340,7 +345,7 @@ def impl(case):
 
 
 def n_ops(case):
-    return {"passive": 1, "psd": 1, "active": 1, "route": 3, "anl": 1, "fit": 4, "drive": 1, "filter": 1, "calib": 1}[case["op"]]
+    return {"passive": 1, "psd": 1, "active": 1, "route": 3, "anl": 1, "fit": 4, "drive": 1, "fitval": 1, "filter": 1, "calib": 1}[case["op"]]
 
 
 def _impl(case, k):
@@ -403,6 +408,15 @@ def _impl(case, k):
         return impl_fit(case)
     if k == "calib":
         return impl_calib(case)
+    if k == "fitval":
+        # argument validation of lk.fit_power_spectrum on an exact Lorentzian of `npts` bins (fast sensor: 2 parameters)
+        lk = _pub()
+        m = build_model(base_opts(fast=True), None)
+        f = 100.0 + 500.0 * (np.arange(case["npts"]) + 0.5)
+        ps = make_ps(f, np.asarray(m(f, 1000.0, 1.0), dtype=float), 1.0, 100)
+        rng_anl = (10.0, 1e4) if case["anl"] else (1e5, 2e5)
+        lk.fit_power_spectrum(ps, m, analytical_fit_range=rng_anl, bias_correction=case["bias"], loss_function=case["loss"])
+        return ["ok"]
     if k == "drive":
         r = run_drive(case)
         _cache[("drive", case_key(case))] = r
@@ -786,6 +800,8 @@ def ops(case):
             f"{enc_float(info['fc'])} {enc_float(info['D'])} {enc_float(info['efc'])} "
             f"{enc_float(info['eD'])} {fl(info['pars'])}"
         ]
+    if k == "fitval":
+        return [f"c11.fitvalidate {case['npts']} {case['loss']} {enc_bool(case['bias'])} {case['npts'] if case['anl'] else 0}"]
     if k == "drive":
         sl = _cache.get(("drive-slice", case_key(case)))
         if sl is None:
@@ -1337,7 +1353,7 @@ def nontrivial(case, ia):
         return ia[1].startswith("ok")
     if k == "calib":
         return ia[0].startswith("ok") or o_valid(case["o"], case.get("fixed")) is not None
-    if k == "drive":
+    if k in ("drive", "fitval"):
         return True
     return False
 
@@ -1415,6 +1431,9 @@ def extra_coverage(results):
         "chi2_objective_ties": sum(1 for r in fits if len(r["impl"]) > 3 and r["impl"][3].startswith("ok")),
         "chi2_objective_ties_hydro": sum(1 for r in fits if len(r["impl"]) > 3 and r["impl"][3].startswith("ok") and r["case"]["o"]["hydro"]),
         "chi2_objective_ties_noise_free": sum(1 for r in fits if len(r["impl"]) > 3 and r["impl"][3].startswith("ok") and not r["case"]["noisy"]),
+        "fit_validation_scope(impl answers)": {
+            k: sum(1 for r in results if r["case"]["op"] == "fitval" and r["impl"][0] == k) for k in ("ok", "RuntimeError", "ValueError")
+        },
         "drive_estimator_ties": len(drv),
         "drive_estimator_scope_cases": sum(1 for r in drv if r["case"].get("scope")),
         "drive_estimator_branches(impl)": dict(sorted(dbr.items())),
@@ -1874,6 +1893,9 @@ def cases(tier, rng):
     for _ in range(30 if quick else 400):
         yield drive_case(r, "exploration-drive", quick)
     yield from drive_scope()
+    # ---- argument validation of fit_power_spectrum: exhaustive small scope (deterministic)
+    for npts, loss, bias, anl in itertools.product((3, 4, 5, 12), ("gaussian", "lorentzian", "huber"), (False, True), (True, False)):
+        yield {"stream": "scope-fit-validation", "op": "fitval", "npts": npts, "loss": loss, "bias": bias, "anl": anl}
     yield from calib_matrix(quick)
     r = rng.fork("calib")
     for i in range(16 if quick else 160):
